@@ -1,5 +1,7 @@
 From Coq Require Import NArith.
-From Stam Require Import Base.Tac Model.Offset Model.Utf8 Model.TextOps Spec.TextOpsSpec Proofs.TextOps Props.C07.
+From Coq Require Import Permutation.
+From Stam Require Import Base.Tac Model.Offset Model.Utf8 Model.TextOps Spec.TextOpsSpec Proofs.TextOps
+  Proofs.TextOpsMerge Proofs.TextOpsRegex Props.C07.
 (* statement pins of the main theorems *)
 Check (C07_find_text : forall find_b, find_ok find_b ->
   forall t nd sb se, sb <= se -> se <= length t ->
@@ -35,7 +37,18 @@ Check (C07_find_text_sequence : forall find_b, find_ok find_b ->
   forall skip t frags sb se, sb <= se -> se <= length t ->
   find_text_sequence find_b (fun x => x) skip t frags sb se
   = OOk (option_map (map (shift sb)) (sequence_spec match_indices skip (sub t sb se) 0 frags))).
+Check (C07_regex_merge : forall (X : Type) (kb ke : X -> nat) fuel allow (ss : list (list X)),
+  length (tag_from 0 ss) < fuel -> Forall (okstream kb ke) ss ->
+  regex_merge kb ke fuel allow ss = merge_spec kb ke allow ss).
+Check (C07_find_text_regex : forall t es allow sb se, sb <= se -> se <= length t ->
+  oracle_ok (sub t sb se) es ->
+  exists l, regex_spec (sub t sb se) sb es allow = Some l
+            /\ find_text_regex t es allow sb se = (l, Done)).
 Print Assumptions C07_find_text.
+Print Assumptions C07_regex_merge.
+Print Assumptions C07_merge_allow_meaning.
+Print Assumptions C07_merge_nooverlap_meaning.
+Print Assumptions C07_find_text_regex.
 Print Assumptions C07_store_find_text.
 Print Assumptions C07_match_indices_sound.
 Print Assumptions C07_match_indices_ordered.
